@@ -128,7 +128,7 @@ var exKeys = []string{"k1", "k2", "k3"}
 
 // exAlphabet returns the op alphabet of the exhaustive part; values of puts are made
 // unique per program position when the program is instantiated.
-func exAlphabet() []Op {
+func exAlphabet(withIterator bool) []Op {
 	var a []Op
 	for _, k := range exKeys {
 		a = append(a, Op{Kind: opGet, B: exBucket, Key: k})
